@@ -170,6 +170,9 @@ class set_impl {
     std::ofstream os(rank_fname, std::ios::binary);
     cereal::JSONOutputArchive oarchive(os);
     oarchive(m_local_set, m_comm.size());
+    // No rank may change the container before every rank has captured its
+    // image.
+    m_comm.cf_barrier();
   }
 
   void deserialize(const std::string &fname) {
@@ -187,6 +190,8 @@ class set_impl {
           "Attempting to deserialize set_impl using communicator of "
           "different size than serialized with");
     }
+    // No rank may use the container before every rank has loaded its image.
+    m_comm.cf_barrier();
   }
 
   ygm::comm &comm() { return m_comm; }
